@@ -46,7 +46,7 @@ if [ "$BUILDARGS" != "done" ] && ! go build $MODFLAG -o "$BIN" ./cmd/vcheck 2>$R
   exit 2
 fi
 GXZ=""
-case "$ID" in C10|C15)
+case "$ID" in C10|C15|C17)
   GXZ=$ROOT/bin/gxz.$$.$ID
   if ! (cd "$REPO" && go build -o "$GXZ" ./cmd/gxz) 2>$ROOT/bin/build.$ID.log; then
     echo "gxz build failed:" >&2; cat $ROOT/bin/build.$ID.log >&2; rm -f "$BIN"; exit 2
